@@ -226,6 +226,13 @@ impl Inner {
             kind,
             thread: thread as u8,
         });
+        let fd = TRACE_FD.load(Ordering::Relaxed);
+        if fd >= 0 {
+            let line = format!("T {} {} {}\n", self.clock, kind, thread);
+            unsafe {
+                libc::write(fd, line.as_ptr() as *const libc::c_void, line.len());
+            }
+        }
     }
 
     /// One decision point. `me` is the thread that reached it (CTRL for the start of a run),
@@ -586,6 +593,9 @@ static SCHED: OnceLock<Sched> = OnceLock::new();
 pub static RUNS_DONE: AtomicU64 = AtomicU64::new(0);
 /// Mirror of the logical clock of the current run, readable from anywhere without locking.
 pub static CLOCK: AtomicU64 = AtomicU64::new(0);
+/// When >= 0 every trace entry is also written to this file descriptor the moment it is
+/// recorded (unbuffered), so that the schedule of a run that crashes the process survives.
+pub static TRACE_FD: std::sync::atomic::AtomicI32 = std::sync::atomic::AtomicI32::new(-1);
 
 pub fn sched() -> &'static Sched {
     SCHED.get().expect("scheduler initialised")
